@@ -172,7 +172,7 @@ theorem applyOp_refines (s : Shape) (v : Val) (g : Good s v) (m : Mem) (hm : m.b
         ∃ m' : Mem, applyOp s p op m = (m', .ok r) ∧ m'.bytes = encode s v' ∧ Good s v'
           ∧ m'.orig = m.orig ∧ m'.refuse = m.refuse
     | .error .initFail => True
-    | .error e => ∃ m' : Mem, applyOp s p op m = (m', .error e) ∧ (composite op = false → m' = m) := by
+    | .error e => composite op = true ∨ applyOp s p op m = (m, .error e) := by
   have hloc := locate_encode p s v g [] [] 0 rfl
   simp only [List.nil_append, List.append_nil, Nat.zero_add] at hloc
   rw [spec_applyOp_eq]
